@@ -437,7 +437,7 @@ var checks = map[string]Check{
 	},
 	"C16": {
 		Level:       "model_checking",
-		Rule:        "a scripted raw client sends every first message of the alphabet {good/bad/erroring/undecodable AUTH_CALL, CALL, PUSH, REPLY, AUTH_REPLY, unknown type, garbage, every strict prefix of a valid AUTH_CALL, nothing} with 0-2 application frames pipelined before or after the verdict, for checker verdicts accept/reject/reject-with-value, a checker that does or does not rename the session (SetID) before deciding, a client that may hang up before the verdict, entering through Peer.ServeConn or through the accept loop of a listener, over the raw protocol (bound 2/3) and over json and pb (bound 0/1); all interleavings of client, accept path and reader up to the preemption bound; oracle: handler and per-message hook counters, checker count, AUTH_REPLY count on the wire, connection closed and not indexed when rejected",
+		Rule:        "a scripted raw client sends every first message of the alphabet {good/bad/erroring/undecodable AUTH_CALL, CALL, PUSH, REPLY, AUTH_REPLY, unknown type, garbage, every strict prefix of a valid AUTH_CALL, nothing} with 0-2 application frames pipelined before or after the verdict, for checker verdicts accept/reject/reject-with-value, a checker that does or does not rename the session (SetID) before deciding, a client that may hang up before the verdict, entering through Peer.ServeConn or through the accept loop of a listener, over the raw protocol (bound 2/3) and over json and pb (bound 0/1); all interleavings of client, accept path and reader up to the preemption bound; plus two connections authenticating concurrently (valid / wrong token of equal length, plain and json token codecs, checker yielding before it compares; bound 1/2); oracle: handler and per-message hook counters, checker count, AUTH_REPLY count on the wire, connection closed and not indexed when rejected",
 		Assumptions: baseAssumptions,
 		Jobs: func(tier string) []Job {
 			var js []Job
@@ -447,6 +447,17 @@ var checks = map[string]Check{
 				js = append(js, j)
 			} else {
 				js = append(js, sched("c16", "", 2, 16))
+			}
+			// two connections authenticating at once (valid token / wrong token of the same length), token carried by the
+			// plain or the json codec, the checker doing some work between receiving and comparing the token
+			for _, cd := range []string{"plain", "json"} {
+				j := sched("c16_two", "codec="+cd, 1, 4)
+				if tier == "thorough" {
+					j.Bound = 2
+					j.Shards = 16
+					j.Budget = 300
+				}
+				js = append(js, j)
 			}
 			// the same client scripts over the json and pb protocols (the auth message types have no thrift or http encoding)
 			for _, pr := range []string{"json", "pb"} {
